@@ -44,6 +44,7 @@ class VirtualFile(object):
     def get_coco_files(self):
         try:
             disk_file = DiskFile(buffer=self.source_file.get_buffer())
+            disk_file.validate_allocation_table()
             return disk_file.list_files(), VirtualFileType.DISK
         except VirtualFileValidationError:
             pass
